@@ -72,6 +72,32 @@ var props = map[string]*prop{
 		},
 		assumptions: baseAssumptions,
 	},
+	"C04": {
+		level: "exploration",
+		jobs: []job{
+			regress,
+			{name: "seed", run: "^TestC04_Seed$", shards: [2]int{8, 16}, checks: [2]int{200, 15000}},
+		},
+		assumptions: baseAssumptions,
+	},
+	"C10": {
+		level: "exploration",
+		jobs: []job{
+			regress,
+			{name: "sweep", run: "^TestC10_WordSweep$", shards: [2]int{2, 10}},
+			{name: "respell", run: "^TestC10_Respell$", shards: [2]int{4, 16}, checks: [2]int{4000, 100000}},
+		},
+		assumptions: baseAssumptions,
+	},
+	"C11": {
+		level: "exploration",
+		jobs: []job{
+			regress,
+			{name: "sweep", run: "^TestC11_WordSweep$", shards: [2]int{12, 16}},
+			{name: "respell", run: "^TestC11_Respell$", shards: [2]int{4, 16}, checks: [2]int{150, 3000}},
+		},
+		assumptions: baseAssumptions,
+	},
 	"C05": {
 		level: "exploration",
 		jobs: []job{
